@@ -6,12 +6,6 @@ import RpmVerif.Lemmas.Decode
 namespace RpmVerif.Hdr
 open RpmVerif.Gen RpmVerif
 
-theorem flatten_map_length (l : List Nat) (f : Nat → Bytes) (w : Nat) (hw : ∀ x, (f x).length = w) :
-    ((l.map f).flatten).length = w * l.length := by
-  induction l with
-  | nil => simp
-  | cons x xs ih => simp [hw, ih, Nat.mul_succ]; omega
-
 theorem lossyAux_length (fuel : Nat) (bs acc : Bytes) :
     (Utf8.lossyAux fuel bs acc).length ≤ acc.length + 3 * bs.length := by
   induction fuel generalizing bs acc with
@@ -122,30 +116,135 @@ theorem decodePartial_le (store : Bytes) (ty off cnt : Nat) : decodePartial stor
     · have := stringsPushed_le cnt (store.drop off); simp only [List.length_drop] at this; omega
     · omega
 
-theorem keptOfCalls_le (store : Bytes) (raws : List (Nat × Nat × Nat × Nat)) :
-    keptOfCalls store raws ≤ 24 * (raws.length * store.length) := by
-  induction raws with
-  | nil => simp [keptOfCalls]
+/-- the bytes the budget charges an accepted entry are there: never more than the store holds from its offset on -/
+theorem decodeUsed_le {store ty off cnt d} (h : decode store ty off cnt = .ok d) :
+    decodeUsed store off cnt d ≤ store.length - off := by
+  have hs := decode_stores h
+  have hdrop : ∀ (x rest : Bytes), store.drop off = x ++ rest → x.length ≤ store.length - off := by
+    intro x rest e
+    have := congrArg List.length e
+    simp only [List.length_drop, List.length_append] at this
+    omega
+  cases hs with
+  | null _ => simp [decodeUsed]
+  | char b rest e l _ => have := hdrop _ _ e; simp only [decodeUsed]; omega
+  | int8 b rest e l _ => have := hdrop _ _ e; simp only [decodeUsed]; omega
+  | bin b rest e l _ => have := hdrop _ _ e; simp only [decodeUsed]; omega
+  | int16 l rest e len _ _ =>
+    have := hdrop _ _ e; rw [flatten_map_length l be16 2 (fun _ => rfl)] at this
+    simp only [decodeUsed]; omega
+  | int32 l rest e len _ _ =>
+    have := hdrop _ _ e; rw [flatten_map_length l be32 4 (fun _ => rfl)] at this
+    simp only [decodeUsed]; omega
+  | int64 l rest e len _ _ =>
+    have := hdrop _ _ e; rw [flatten_map_length l be64 8 (fun _ => by simp [be64, be32_length])] at this
+    simp only [decodeUsed]; omega
+  | str raw rest e _ _ => simp only [decodeUsed]; exact Nat.min_le_right _ _
+  | strArray raws rest e len nn _ =>
+    have := hdrop _ _ e
+    simp only [decodeUsed]; rw [e, ← len, strConsumed_enc raws rest nn]; exact this
+  | i18n raws rest e len nn _ =>
+    have := hdrop _ _ e
+    simp only [decodeUsed]; rw [e, ← len, strConsumed_enc raws rest nn]; exact this
+
+/-- **what an accepted entry keeps is paid for by the budget**: at most 24 bytes of decoded data (a `String` value per
+NUL) per store byte the entry is charged -/
+theorem decode_kept_le_used {store ty off cnt d} (h : decode store ty off cnt = .ok d) :
+    d.keptBytes ≤ 24 * decodeUsed store off cnt d := by
+  have hs := decode_stores h
+  cases hs with
+  | null _ => simp [IndexData.keptBytes]
+  | char b rest e l _ => simp only [IndexData.keptBytes, decodeUsed]; omega
+  | int8 b rest e l _ => simp only [IndexData.keptBytes, decodeUsed]; omega
+  | bin b rest e l _ => simp only [IndexData.keptBytes, decodeUsed]; omega
+  | int16 l rest e len _ _ => simp only [IndexData.keptBytes, decodeUsed]; omega
+  | int32 l rest e len _ _ => simp only [IndexData.keptBytes, decodeUsed]; omega
+  | int64 l rest e len _ _ => simp only [IndexData.keptBytes, decodeUsed]; omega
+  | str raw rest e nn hle =>
+    have hl := lossy_length_le raw
+    simp only [IndexData.keptBytes, decodeUsed]
+    rcases e with e | e
+    · rw [e, takeTill0_append raw rest nn]
+      have := congrArg List.length e
+      simp only [List.length_drop, List.length_append, List.length_cons] at this
+      simp only [Nat.min_def]; split <;> omega
+    · have e' : store.drop off = raw ++ [] := by rw [e, List.append_nil]
+      have ht : (takeTill0 raw).1 = raw := by
+        obtain ⟨s1, s2, s3⟩ := takeTill0_spec raw
+        rcases s3 with z | ⟨r, z⟩
+        · rw [z, List.append_nil] at s1; exact s1.symm
+        · exfalso; apply nn; rw [s1, z]; simp
+      have := congrArg List.length e
+      simp only [List.length_drop] at this
+      rw [e, ht]
+      simp only [Nat.min_def]; split <;> omega
+  | strArray raws rest e len nn _ =>
+    have := strings_kept_le raws
+    simp only [IndexData.keptBytes, decodeUsed]; rw [e, ← len, strConsumed_enc raws rest nn]; exact this
+  | i18n raws rest e len nn _ =>
+    have := strings_kept_le raws
+    simp only [IndexData.keptBytes, decodeUsed]; rw [e, ← len, strConsumed_enc raws rest nn]; exact this
+
+theorem keptOfCallsB_le (store : Bytes) (budget : Nat) (raws : List (Nat × Nat × Nat × Nat)) :
+    keptOfCallsB store budget raws ≤ 24 * (raws.length * store.length) := by
+  induction raws generalizing budget with
+  | nil => simp [keptOfCallsB]
   | cons r rs ih =>
     obtain ⟨tag, ty, off, cnt⟩ := r
-    simp only [keptOfCalls]
+    simp only [keptOfCallsB]
     split
     · rename_i d hd
       have := decode_kept_le hd
       simp only [List.length_cons, Nat.succ_mul]
-      omega
+      split
+      · omega
+      · have := ih (budget - decodeUsed store off cnt d); omega
     · have := decodePartial_le store ty off cnt
       simp only [List.length_cons, Nat.succ_mul]
       omega
 
-theorem decodeCalls_length_le (store : Bytes) (raws : List (Nat × Nat × Nat × Nat)) :
-    (decodeCalls store raws).length ≤ raws.length := by
-  induction raws with
-  | nil => simp [decodeCalls]
+theorem keptOfCalls_le (store : Bytes) (raws : List (Nat × Nat × Nat × Nat)) :
+    keptOfCalls store raws ≤ 24 * (raws.length * store.length) := keptOfCallsB_le store store.length raws
+
+/-- **with the budget the decoded data is LINEAR in the store, whatever the index says**: the entries the budget
+covered keep at most 24 bytes per budget byte; the one entry at which the loop stopped (undecodable, or refused by the
+budget after it was decoded) at most 24 bytes per store byte -/
+theorem keptOfCallsB_le_linear (store : Bytes) (budget : Nat) (raws : List (Nat × Nat × Nat × Nat)) :
+    keptOfCallsB store budget raws ≤ 24 * budget + 24 * store.length := by
+  induction raws generalizing budget with
+  | nil => simp [keptOfCallsB]
   | cons r rs ih =>
     obtain ⟨tag, ty, off, cnt⟩ := r
-    simp only [decodeCalls]
-    split <;> simp <;> omega
+    simp only [keptOfCallsB]
+    split
+    · rename_i d hd
+      split
+      · have := decode_kept_le hd; omega
+      · have := decode_kept_le_used hd
+        have := ih (budget - decodeUsed store off cnt d); omega
+    · have := decodePartial_le store ty off cnt
+      omega
+
+theorem keptOfCalls_le_linear (store : Bytes) (raws : List (Nat × Nat × Nat × Nat)) :
+    keptOfCalls store raws ≤ 48 * store.length := by
+  have := keptOfCallsB_le_linear store store.length raws
+  simp only [keptOfCalls]; omega
+
+theorem decodeCallsB_length_le (store : Bytes) (budget : Nat) (raws : List (Nat × Nat × Nat × Nat)) :
+    (decodeCallsB store budget raws).length ≤ raws.length := by
+  induction raws generalizing budget with
+  | nil => simp [decodeCallsB]
+  | cons r rs ih =>
+    obtain ⟨tag, ty, off, cnt⟩ := r
+    simp only [decodeCallsB]
+    split
+    · split
+      · simp
+      · have := ih (budget - decodeUsed store off cnt ‹_›); simp only [List.length_cons]; omega
+    · simp
+
+theorem decodeCalls_length_le (store : Bytes) (raws : List (Nat × Nat × Nat × Nat)) :
+    (decodeCalls store raws).length ≤ raws.length := decodeCallsB_length_le store store.length raws
 
 theorem rawPushed_le (k : Nat) (bs : Bytes) : rawPushed k bs ≤ k := by
   induction k generalizing bs with
@@ -164,17 +263,43 @@ theorem foldl_max_le {l : List Nat} {b init : Nat} (hi : init ≤ b) (h : ∀ x 
     exact ih (Nat.max_le.mpr ⟨hi, h x (by simp)⟩) (fun y hy => h y (by simp [hy]))
 
 
-theorem decodeCalls_of_ok {store : Bytes} {es : List Entry}
-    (h : ∀ e ∈ es, decode store e.data.typeCode e.off e.cnt = .ok e.data) :
-    decodeCalls store (es.map Entry.raw) = es.map Entry.raw
-      ∧ keptOfCalls store (es.map Entry.raw) = (es.map fun e => e.data.keptBytes).sum := by
-  induction es with
+theorem decodeCallsB_of_ok {store : Bytes} {budget : Nat} {es : List Entry}
+    (h : ∀ e ∈ es, decode store e.data.typeCode e.off e.cnt = .ok e.data) (hb : usedSum store es ≤ budget) :
+    decodeCallsB store budget (es.map Entry.raw) = es.map Entry.raw
+      ∧ keptOfCallsB store budget (es.map Entry.raw) = (es.map fun e => e.data.keptBytes).sum := by
+  induction es generalizing budget with
   | nil => exact ⟨rfl, rfl⟩
   | cons e es ih =>
     have he := h e (by simp)
-    obtain ⟨i1, i2⟩ := ih (fun e' m => h e' (by simp [m]))
-    simp only [List.map_cons, Entry.raw, decodeCalls, keptOfCalls, he, List.sum_cons]
+    rw [usedSum_cons] at hb
+    obtain ⟨i1, i2⟩ := ih (fun e' m => h e' (by simp [m])) (budget := budget - decodeUsed store e.off e.cnt e.data) (by omega)
+    simp only [List.map_cons, Entry.raw, decodeCallsB, keptOfCallsB, he, List.sum_cons]
+    rw [if_neg (by omega), if_neg (by omega)]
     exact ⟨by rw [i1], by rw [i2]⟩
+
+theorem decodeCalls_of_ok {store : Bytes} {es : List Entry}
+    (h : ∀ e ∈ es, decode store e.data.typeCode e.off e.cnt = .ok e.data) (hb : usedSum store es ≤ store.length) :
+    decodeCalls store (es.map Entry.raw) = es.map Entry.raw
+      ∧ keptOfCalls store (es.map Entry.raw) = (es.map fun e => e.data.keptBytes).sum := decodeCallsB_of_ok h hb
+
+/-- what a header with non-overlapping entries keeps is at most 24 bytes per store byte -/
+theorem kept_le_of_budget {h : Header} (wf : HeaderWF h) : h.keptBytes ≤ 24 * h.store.length := by
+  have key : ∀ es : List Entry, (∀ e ∈ es, decode h.store e.data.typeCode e.off e.cnt = .ok e.data) →
+      (es.map fun e => e.data.keptBytes).sum ≤ 24 * usedSum h.store es := by
+    intro es
+    induction es with
+    | nil => intro _; simp [usedSum]
+    | cons e es ih =>
+      intro hd
+      have := decode_kept_le_used (hd e (by simp))
+      have := ih (fun e' m => hd e' (by simp [m]))
+      rw [usedSum_cons]
+      simp only [List.map_cons, List.sum_cons]
+      omega
+  have := key h.entries wf.dec
+  have := wf.budget
+  simp only [Header.keptBytes]
+  omega
 
 /-- the account of a header that is accepted: exactly its sizes, one reservation per entry, the decoded data -/
 theorem acct_of_written {h : Header} (wf : HeaderWF h) {res : Bytes} (hr : res.length = 4) (rest : Bytes) :
@@ -197,7 +322,7 @@ theorem acct_of_written {h : Header} (wf : HeaderWF h) {res : Bytes} (hr : res.l
     obtain ⟨e', he', rfl⟩ := List.mem_map.mp he
     exact wf.fields e' he')]
   simp only
-  obtain ⟨c1, c2⟩ := decodeCalls_of_ok wf.dec
+  obtain ⟨c1, c2⟩ := decodeCalls_of_ok wf.dec wf.budget
   rw [c1, c2]
   simp only [parseBufUpFront, parseReadBounded, if_true, List.length_append, List.map_map, List.length_map, wf.nEq, wf.dlEq,
     writeRaws_length, Header.keptBytes, ParseAcct.mk.injEq, true_and, and_true]
@@ -215,17 +340,24 @@ theorem sum_replicate' (n x : Nat) : (List.replicate n x).sum = n * x := by
 def overlapHeader (n S : Nat) : Header :=
   ⟨n, S, List.replicate n ⟨1000, .bin (List.replicate S 0), 0, S⟩, List.replicate S 0⟩
 
-theorem overlap_wf {n S : Nat} (hn : n < 4294967296) (hS : S < 4294967296) : HeaderWF (overlapHeader n S) := by
-  refine ⟨by simp [overlapHeader], by simp [overlapHeader], hn, hS, ?_, ?_⟩
-  · intro e he
-    obtain ⟨_, rfl⟩ := List.mem_replicate.mp he
-    simp only [RawWF, Entry.raw, IndexData.typeCode]
-    omega
-  · intro e he
-    obtain ⟨_, rfl⟩ := List.mem_replicate.mp he
-    simp only [overlapHeader, IndexData.typeCode, decode, List.length_replicate, List.drop_zero, rdBin, Out.map]
-    rw [if_neg (by omega), if_pos (Nat.le_refl _)]
-    simp
+/-- everything `HeaderWF` asks for except the budget: the entries of the family decode, one by one -/
+theorem overlap_dec (n S : Nat) :
+    ∀ e ∈ (overlapHeader n S).entries, decode (overlapHeader n S).store e.data.typeCode e.off e.cnt = .ok e.data := by
+  intro e he
+  obtain ⟨_, rfl⟩ := List.mem_replicate.mp he
+  simp only [overlapHeader, IndexData.typeCode, decode, List.length_replicate, List.drop_zero, rdBin, Out.map]
+  rw [if_neg (by omega), if_pos (Nat.le_refl _)]
+  simp
+
+theorem overlap_fields {n S : Nat} (hS : S < 4294967296) : ∀ e ∈ (overlapHeader n S).entries, RawWF e.raw := by
+  intro e he
+  obtain ⟨_, rfl⟩ := List.mem_replicate.mp he
+  simp only [RawWF, Entry.raw, IndexData.typeCode]
+  omega
+
+/-- the budget charges the family `n · S` bytes for an `S`-byte store -/
+theorem overlap_used (n S : Nat) : usedSum (overlapHeader n S).store (overlapHeader n S).entries = n * S := by
+  simp only [usedSum, overlapHeader, List.map_replicate, decodeUsed, List.length_replicate, sum_replicate']
 
 theorem overlap_kept (n S : Nat) : (overlapHeader n S).keptBytes = n * S := by
   simp only [Header.keptBytes, overlapHeader, List.map_replicate, IndexData.keptBytes, List.length_replicate, sum_replicate']
